@@ -585,7 +585,7 @@ theorem pdraw_key (segs : List (List Ch)) (s : Pager.St) (w h : Nat) (fe : Bool)
     · simp [lookupC]
   · have hr : relaid ⟨text, lines, offset, width⟩ w = Pager.layout true w text := by simp [relaid, hw]
     rw [hr]
-    have hl := play_exec ⟨0, 0, segs, lineCalls expB⟩ rfl 0
+    have hl := play_exec ⟨0, 0, segs, lineCalls expB, noFn⟩ rfl 0
       ⟨[("d.width", (w : Int)), ("d.Offset", offset), ("d.width", width)], [],
        [("d.Fill.Grapheme", if fe = true then ⟨[], 0⟩ else fillCh), ("defaultFill", fillCh)], [], lines, "", [], [], blank w h, []⟩
       (w : Int) rfl (by simp [lookup])
@@ -594,7 +594,7 @@ theorem pdraw_key (segs : List (List Ch)) (s : Pager.St) (w h : Nat) (fe : Bool)
     simp [lookup, lookupC, hw, store, fn_width, layoutCallee, hpl]
     revert hl
     simp only [ht]
-    generalize exec ⟨0, 0, segs, lineCalls expB⟩ (seqOf playParts) 0
+    generalize exec ⟨0, 0, segs, lineCalls expB, noFn⟩ (seqOf playParts) 0
       ⟨[("d.width", (w : Int)), ("d.Offset", offset), ("d.width", width)], [],
        [("d.Fill.Grapheme", if fe = true then ⟨[], 0⟩ else fillCh), ("defaultFill", fillCh)], [], lines, "", [], [], blank w h, []⟩ = r
     intro hl
